@@ -37,7 +37,7 @@ m = {
                  "serves_properties": [c["property_id"] for c in checks],
                  "kind_free_text": "Lean 4 models + theorems (lake), Rust-to-Lean translator for decision logic with agreement theorems, native model driver, Rust differential harness with white-box hooks, source-site audit, Miri (thorough)"}],
     "checks": checks,
-    "notes": "See DESIGN.md. Every check: regenerate constants and translate the decision logic (49 sites) from /repo's sources into Lean, lake build the property's theorem modules and the agreement theorems between model and translated logic, audit axioms, rebuild the harness against /repo's working tree, run corpus + generated histories on implementation and model, judge implementation traces with the property's oracle (the Lean function the theorems are about), audit source sites (counts and ordered lock/channel sequences). Thorough tier: 500x the histories, leanchecker on the compiled property modules, and for C08/C11 the real code under Miri.",
+    "notes": "See DESIGN.md. Every check: regenerate constants and translate the decision logic and the sketch bit tricks (56 sites) from /repo's sources into Lean, lake build the property's theorem modules and the agreement theorems between model and translated logic, audit axioms, rebuild the harness against /repo's working tree, run corpus + generated histories on implementation and model, judge implementation traces with the property's oracle (the Lean function the theorems are about), audit source sites (counts and ordered lock/channel sequences). Thorough tier: 500x the histories, leanchecker on the compiled property modules, and for C08/C11 the real code under Miri.",
     "not_applicable": na,
 }
 json.dump(m, open(os.path.join(ROOT, "MANIFEST.json"), "w"), indent=1)
